@@ -2,6 +2,7 @@
 Command interpreter for the line protocol (see `Main.lean`).
 -/
 import P3R.Model.Runner
+import P3R.Model.Roles
 import P3R.Model.Field
 
 namespace P3R.Driver
@@ -76,6 +77,29 @@ def circuitLines {p} (c : Circuit (PF p)) : List String :=
 
 def canonPF {p} (x : PF p) : Nat := x.val
 
+def boolStr (b : Bool) : String := if b then "1" else "0"
+
+/-- Dump of the role assignment and of the converted multiplicity columns. -/
+def prepLines {p} (c : Circuit (PF p)) : List String :=
+  match genPrep c with
+  | none => ["prep err"]
+  | some pr =>
+    let rd := fun s => readsOf pr.reads s
+    let conv := fun (st : Nat) (x : Nat) => if st = 1 then "1" else if st = 2 then (if rd x = 0 then "0" else s!"-{rd x}") else "0"
+    ["prep ok", s!"pc {natsStr pr.consts}", s!"pp {natsStr pr.pubs}"] ++
+    (pr.alu.map fun r =>
+      s!"pa {kindStr r.kind} {r.a} {r.b} {r.c} {r.out} {r.aState} {boolStr r.bCreator} {r.cState} {boolStr r.outCreator} | " ++
+      s!"{if r.bCreator then toString (rd r.b) else "-1"} {if r.outCreator then toString (rd r.out) else "-1"} " ++
+      s!"{conv r.aState r.a} {conv r.cState r.c}") ++
+    [s!"reads {natsStr ((List.range c.witnessCount).map rd)}",
+     (let sm := sendMults (pr.consts ++ pr.pubs)
+      let f := fun (ob : Nat × Bool) => if ob.2 then toString (rd ob.1) else "-1"
+      s!"cmult {" ".intercalate ((sm.take pr.consts.length).map f)}"),
+     (let sm := sendMults (pr.consts ++ pr.pubs)
+      let f := fun (ob : Nat × Bool) => if ob.2 then toString (rd ob.1) else "-1"
+      s!"pmult {" ".intercalate ((sm.drop pr.consts.length).map f)}"),
+     s!"net {" ".intercalate ((List.range c.witnessCount).map fun s => toString (pr.net s))}"]
+
 /-- Interpret one line. Unknown or ill-formed commands answer `bad-op` (never a default). -/
 def step (st : St) (line : String) : St × List String :=
   let ws := (line.trimAscii.toString.splitOn " ").filter (· ≠ "")
@@ -118,6 +142,10 @@ def step (st : St) (line : String) : St × List String :=
         match compile st.b with
         | .ok c => ({ st with c := some c }, "build ok" :: circuitLines c)
         | .error _ => ({ st with c := none }, ["build err"])
+      | "prep", [] =>
+        match st.c with
+        | none => (st, ["bad-op"])
+        | some c => (st, prepLines c)
       | "run", np :: rest =>
         match st.c with
         | none => (st, ["bad-op"])
